@@ -285,6 +285,35 @@ enum Op {
     Labels(usize, Vec<String>),
     DelLabel(usize, usize),
     CStr(usize, String),
+    /// A call the library must reject and that must leave the archive unchanged (kind, address, fresh string).
+    Rejected(u64, usize, String),
+}
+
+/// Executes a call that is expected to be rejected; whatever it returns is ignored — if it had an effect, the
+/// content differs from the one the case describes and the oracle sees it.
+fn rejected_call(a: &mut BinArchive, kind: u64, addr: usize, fresh: String) {
+    let size = a.size();
+    let _ = match kind {
+        0 => a.write_c_string(addr, fresh),
+        1 => a.write_string(addr, Some(&fresh)),
+        2 => a.write_pointer(addr, Some(0)),
+        3 => a.write_label(size + 1 + addr % 7, &fresh),
+        4 => a.write_labels(size + 1 + addr % 7, vec![fresh]),
+        5 => a.write_u32(addr, 0xdead_beef),
+        6 => a.write_u8(size + addr % 5, 0xee),
+        7 => a.write_u16(size.saturating_sub(1) + addr % 3, 0xeeee),
+        8 => a.write_bytes(size.saturating_sub(1), &[1, 2, 3, 4]),
+        9 => a.delete_label(addr, 0),
+        10 => a.delete_string(addr),
+        11 => a.allocate(size + 4 + addr % 8, 4, false),
+        12 => a.allocate(if size >= 1 { 1 } else { 2 }, 4, true),
+        13 => a.allocate(0, 3, false),
+        14 => a.deallocate(size, 4, false),
+        15 => a.write_i32(addr, -1),
+        16 => a.write_f32(addr, 1.5),
+        17 => a.delete_pointer(addr),
+        _ => a.delete_labels(addr),
+    };
 }
 
 fn build(c: &Content, rng: &mut Rng) -> BinArchive {
@@ -297,8 +326,36 @@ fn build(c: &Content, rng: &mut Rng) -> BinArchive {
         a.allocate_at_end(n);
         left -= n;
     }
+    // history that empties buckets again: a scratch region behind the data is annotated (fresh c-strings,
+    // a string, a pointer, labels) and then removed by truncate / deallocate — nothing of it may survive
+    if rng.chance(1, 3) {
+        a.allocate_at_end(8);
+        let g = format!("ghost{}", rng.below(1000));
+        a.write_c_string(size, g.clone()).unwrap();
+        if rng.chance(1, 2) {
+            a.write_c_string(size + 4, g.clone()).unwrap();
+        } else if rng.chance(1, 2) {
+            a.write_string(size + 4, Some(&format!("{}s", g))).unwrap();
+        } else {
+            a.write_pointer(size + 4, Some(size)).unwrap();
+        }
+        a.write_label(size + 4, &format!("{}l", g)).unwrap();
+        if size % 4 == 0 && rng.chance(1, 2) {
+            a.deallocate(size, 8, rng.chance(1, 2)).unwrap();
+        } else {
+            a.write_label(size + 8, &format!("{}e", g)).unwrap();
+            a.truncate(size).unwrap();
+        }
+    }
     // chains of operations whose relative order matters; chains are interleaved at random
     let mut chains: Vec<Vec<Op>> = Vec::new();
+    // calls that must be rejected and change nothing (address >= size, address + 4 > size, unaligned allocation …)
+    for _ in 0..rng.below(4) {
+        let kind = rng.below(19);
+        let lo = size.saturating_sub(3);
+        let addr = lo + rng.below(10) as usize; // addr + 4 > size
+        chains.push(vec![Op::Rejected(kind, addr, format!("ghost{}", rng.below(1000)))]);
+    }
     if size > 0 {
         if rng.chance(1, 2) {
             chains.push(vec![Op::Bytes(0, c.data.clone())]);
@@ -376,6 +433,7 @@ fn build(c: &Content, rng: &mut Rng) -> BinArchive {
             Op::Labels(at, b) => a.write_labels(at, b).unwrap(),
             Op::DelLabel(at, i) => a.delete_label(at, i).unwrap(),
             Op::CStr(at, s) => a.write_c_string(at, s).unwrap(),
+            Op::Rejected(kind, at, fresh) => rejected_call(&mut a, kind, at, fresh),
         }
     }
     a
@@ -523,8 +581,16 @@ pub fn foreign_image(c: &Content, rng: &mut Rng) -> Vec<u8> {
         let k = rng.range(1, 6) as usize;
         text.extend_from_slice(&rng.bytes(k));
     }
+    let last_nul = if text.last() == Some(&0) { Some(text.len() - 1) } else { None };
     let place = |rng: &mut Rng, s: &String| -> usize {
-        let opts: Vec<usize> = places.iter().filter(|p| &p.0 == s).map(|p| p.1).collect();
+        let mut opts: Vec<usize> = places.iter().filter(|p| &p.0 == s).map(|p| p.1).collect();
+        if s.is_empty() {
+            // the empty string may share any terminator — in particular the very last byte of the file
+            if let Some(l) = last_nul {
+                opts.push(l);
+                opts.push(l);
+            }
+        }
         *rng.pick(&opts)
     };
     let mut data = c.data.clone();
@@ -1159,6 +1225,13 @@ pub fn gen(seed: u64, tier: &str) -> Vec<String> {
             let nl = rng.below((4 * (np + ns) + 4) as u64) as usize;
             push(&mut lines, i % 2 == 0, np, ns, m, nl);
         }
+        // exact entry counts (full groups of eight, powers of two and their neighbours)
+        for cnt in [0usize, 1, 2, 7, 8, 9, 15, 16, 17, 31, 32, 33, 63, 64, 65, 127, 128, 129] {
+            let e = rng.chance(1, 2);
+            push(&mut lines, e, cnt, 1, 1, 0);
+            push(&mut lines, !e, 0, cnt, cnt.max(1), 1);
+            push(&mut lines, e, 1, cnt, (cnt / 2).max(1), cnt);
+        }
         // around 2^8
         for (np, ns, m, nl) in [(0, 300, 255, 0), (0, 300, 256, 3), (0, 300, 257, 0), (257, 2, 2, 256), (3, 258, 258, 300)] {
             push(&mut lines, rng.chance(1, 2), np, ns, m, nl);
@@ -1217,6 +1290,77 @@ pub fn gen(seed: u64, tier: &str) -> Vec<String> {
             };
             lines.push(format!("c01.t{:05} ser {} {}", k, end_tag(big), c.fields(true)));
             k += 1;
+        }
+    }
+    // text sections that end in an empty name: labels all named "" (text = one NUL byte) or "" as the last pool
+    // entry after other names; no strings; all name assignments over {"", "a"} for 1..4 label entries
+    {
+        let mut k = 0usize;
+        for nlab in 1..=4usize {
+            for code in 0..(1usize << nlab) {
+                for shape in 0..2 {
+                    for size in [0usize, 4, 6] {
+                        for big in [false, true] {
+                            let mut c = Content { big, data: rng.bytes(size), ..Default::default() };
+                            for i in 0..nlab {
+                                let name = if (code >> i) & 1 == 0 { String::new() } else { "a".to_string() };
+                                let addr = if shape == 0 { 0 } else { i.min(size) };
+                                match c.labels.iter_mut().find(|l| l.0 == addr) {
+                                    Some(l) => l.1.push(name),
+                                    None => c.labels.push((addr, vec![name])),
+                                }
+                            }
+                            rng.shuffle(&mut c.labels);
+                            lines.push(format!("c01.z{:05} ser {} {}", k, end_tag(big), c.fields(true)));
+                            k += 1;
+                            if !thorough && (k % 3 != 0) {
+                                continue;
+                            }
+                            let img = foreign_image(&c, &mut rng);
+                            lines.push(format!("c01.z{:05} img {} {} {}", k, end_tag(big), hex(&img), c.fields(false)));
+                            k += 1;
+                        }
+                    }
+                }
+            }
+        }
+        // every string length 0..130 (encoded bytes) once per string-bearing position; special words in raw cells
+        let alpha = alphabet();
+        for l in 0..=130u64 {
+            let big = l % 2 == 0;
+            let mut data = vec![0, 0, 0, 0x80, 0xff, 0xff, 0xff, 0xff, 0, 0, 0, 0];
+            data.extend(rng.bytes(12 + (l % 4) as usize));
+            let mk = |rng: &mut Rng, tag: char| -> String {
+                // exactly l encoded bytes: ASCII, with one double-byte character when there is room
+                if l == 0 {
+                    String::new()
+                } else if l >= 3 && rng.chance(1, 2) {
+                    let pos = rng.below(l - 2) as usize;
+                    let mut s: String = std::iter::repeat(tag).take(l as usize - 2).collect();
+                    s.insert(pos.min(s.len()), 'ソ');
+                    s
+                } else {
+                    std::iter::repeat(tag).take(l as usize).collect()
+                }
+            };
+            let (s1, s2, s3) = (mk(&mut rng, 'p'), mk(&mut rng, 'q'), mk(&mut rng, 'r'));
+            let _ = &alpha;
+            let mut c = Content {
+                big,
+                data,
+                strings: vec![(12, s1.clone())],
+                pointers: vec![(16, 8)],
+                labels: vec![(20, vec![s2.clone()])],
+                cstrings: vec![(s3.clone(), vec![20])],
+            };
+            if l == 0 {
+                // the three strings coincide: keep them, they are the same (empty) string
+                c.labels[0].1.push(String::new());
+            }
+            lines.push(format!("c01.w{:05} ser {} {}", l, end_tag(big), c.fields(true)));
+            let c2 = Content { cstrings: vec![], ..c.clone() };
+            let img = foreign_image(&c2, &mut rng);
+            lines.push(format!("c01.w{:05} img {} {} {}", 1000 + l, end_tag(big), hex(&img), c2.fields(false)));
         }
     }
     // bounded-exhaustive small scopes (cheap: run in both tiers)
